@@ -249,7 +249,13 @@ def State.taskRunning (s : State) (w : Nat) (id : TaskId) (rv : Nat) : M (State 
             | .ok s3 => started s3 [w]
     | .runningMN ws =>
       match ws with
-      | root :: _ => if root ≠ w then .error (.panic "task_running.assert_root") else started s ws
+      | root :: _ =>
+        if root ≠ w then .error (.panic "task_running.assert_root") else
+        match s.withWorker w (fun wk => match wk.assign with
+            | .mn t r _ => .ok { wk with assign := .mn t r true }
+            | _ => .ok wk) with
+        | .error e => .error e
+        | .ok s1 => started s1 ws
       | [] => .error (.panic "task_running.ws0")
     | .running .. | .waiting .. | .finished => .error (.panic "task_running.unreachable")
 
@@ -262,7 +268,7 @@ def resetMnChecked (s : State) (id : TaskId) : List Nat → M State
     | .error e => .error e
     | .ok wk =>
       match wk.assign with
-      | .mn t _ => if t ≠ id then .error (.panic "reset_mn_task_workers.assert") else resetMnChecked (s.setWorker wk.emptySn) id rest
+      | .mn t _ _ => if t ≠ id then .error (.panic "reset_mn_task_workers.assert") else resetMnChecked (s.setWorker wk.emptySn) id rest
       | _ => .error (.panic "reset_mn_task_workers.unwrap")
 
 def State.wakeConsumers (s : State) : List TaskId → List TaskId → M (State × List TaskId)
@@ -505,14 +511,23 @@ def State.lostRetracting (s : State) (w : Nat) : List Task → Out → M (State 
   | t0 :: rest, out =>
     match s.task? t0.id with
     | none => State.lostRetracting s w rest out
-    | some task =>
-      if task.state ≠ .retracting w then State.lostRetracting s w rest out else
+    | some task0 =>
+      if task0.state ≠ .retracting w then State.lostRetracting s w rest out else
+      let task := { task0 with inst := task0.inst + 1 }
       match s.redirects.find? (·.1 = task.id) with
       | some (_, target, rv) =>
         let s1 := { s with redirects := s.redirects.filter (·.1 ≠ task.id) }
         let t' := { task with state := .assigned target rv }
         State.lostRetracting (s1.setTask t') w rest (out.add { msgs := [.compute target [computeOne t' (some rv) []]] })
       | none => State.lostRetracting (s.setTask { task with state := .waiting 0 }) w rest out
+
+/-- `Task::increment_crash_counter` + the `NeverRestart` test of `on_remove_worker`, as a decision table:
+new crash counter and whether the task is failed because of this loss -/
+def crashOutcome (limit : CrashLimit) (isFailure : Bool) (crashes : Nat) : Nat × Bool :=
+  match limit with
+  | .never => (crashes, true)
+  | .max n => if isFailure then (crashes + 1, decide (crashes + 1 ≥ n)) else (crashes, false)
+  | .unlimited => if isFailure then (crashes + 1, false) else (crashes, false)
 
 /-- the crash-limit loop -/
 def State.crashLoop (s : State) (isFailure : Bool) : List TaskId → List (List TaskId) → Out → M (State × Out)
@@ -521,23 +536,13 @@ def State.crashLoop (s : State) (isFailure : Bool) : List TaskId → List (List 
     match s.task? id with
     | none => State.crashLoop s isFailure rest rets out
     | some task =>
-      if task.crashLimit = .never then
-        match s.taskFailed none id (rets.headD []) with
+      let (crashes', fails) := crashOutcome task.crashLimit isFailure task.crashes
+      let s1 := s.setTask { task with crashes := crashes' }
+      if fails then
+        match s1.taskFailed none id (rets.headD []) with
         | .error e => .error e
-        | .ok (s1, o) => State.crashLoop s1 isFailure rest rets.tail (out.add o)
-      else if isFailure then
-        let t' := { task with crashes := task.crashes + 1 }
-        let s1 := s.setTask t'
-        let reached := match task.crashLimit with
-          | .never => true
-          | .max n => t'.crashes ≥ n
-          | .unlimited => false
-        if reached then
-          match s1.taskFailed none id (rets.headD []) with
-          | .error e => .error e
-          | .ok (s2, o) => State.crashLoop s2 isFailure rest rets.tail (out.add o)
-        else State.crashLoop s1 isFailure rest rets out
-      else State.crashLoop s isFailure rest rets out
+        | .ok (s2, o) => State.crashLoop s2 isFailure rest rets.tail (out.add o)
+      else State.crashLoop s1 isFailure rest rets out
 
 /-- `on_remove_worker`. `order` = iteration order of the lost worker's `assigned_tasks`
 (a hash set in the implementation; it fixes the order of the running list and of the crash loop). -/
@@ -557,7 +562,7 @@ def State.removeWorker (s : State) (w : Nat) (reason : String) (isFailure : Bool
           match s0.lostPrefilled prefilled with
           | .error e => .error e
           | .ok s1 => s1.lostAssigned order [] []
-      | .mn tid _ =>
+      | .mn tid _ mnStarted =>
         match s0.getTask tid with
         | .error e => .error e
         | .ok task =>
@@ -573,7 +578,7 @@ def State.removeWorker (s : State) (w : Nat) (reason : String) (isFailure : Bool
                   let s2 := s1.setTask t'
                   match s2.addReady t' with
                   | .error e => .error e
-                  | .ok (s3, r) => .ok (s3, [tid], r)
+                  | .ok (s3, r) => .ok (s3, if mnStarted then [tid] else [], r)
               else .ok (s0.setTask { task with state := .runningMN (ws.filter (· ≠ w)) }, [], [])
             | [] => .error (.panic "on_remove_worker.ws0")
           | _ => .error (.panic "on_remove_worker.unreachable")
